@@ -15,9 +15,9 @@
    correspondence only. *)
 From Coq Require Import NArith ZArith List.
 From BU Require Import Base.Exn Base.Bytes Gen.ConstsCardmon.
-From BU Require Import Model.EdLib Model.Bip32Kholaw Model.ByronLegacyDeriv.
+From BU Require Import Model.EdLib Model.CborEnc Model.Bip32Kholaw Model.ByronLegacyDeriv Model.AddrAdaShelley Model.AddrAdaByron.
 From BU Require Import Lemmas.CardanoBackend.
-From BU Require Lemmas.Bip32Kholaw Lemmas.ByronLegacyDeriv.
+From BU Require Lemmas.Bip32Kholaw Lemmas.ByronLegacyDeriv Lemmas.AddrAdaShelley Lemmas.AddrAdaByron Lemmas.CborEnc.
 Import ListNotations.
 Open Scope N_scope.
 
@@ -202,6 +202,109 @@ Proof.
 Qed.
 Print Assumptions ckd_commutes_byron_legacy.
 
+(* ------------------------------------------------------------------ Shelley addresses *)
+
+(* header || Blake2b-224(payment key) || Blake2b-224(stake key), header = (type << 4) + network tag with
+   type 0 (payment) / 14 (reward), under the network's prefix; for the two configured networks *)
+Theorem shelley_layout : forall o a net pub pub_sk s, In net ada_nets -> sh_encode o a net pub pub_sk = Ok s ->
+  exists pk sk, pub_from_bytes (G o) (pdec o) pub = Ok pk /\ pub_from_bytes (G o) (pdec o) pub_sk = Ok sk /\
+    s = b32_enc a (net_hrp net) ([0 * 16 + net_tag net] ++ blake224 a pk ++ blake224 a sk).
+Proof.
+  intros o a. exact (Lemmas.AddrAdaShelley.encode_payment_layout (blake224 a) (G o) (pdec o) (b32_enc a)).
+Qed.
+Print Assumptions shelley_layout.
+
+Theorem shelley_dec_enc : forall o a, shelley_laws a -> forall net pub pub_sk s, In net ada_nets ->
+  sh_encode o a net pub pub_sk = Ok s ->
+  exists pk sk, pub_from_bytes (G o) (pdec o) pub = Ok pk /\ pub_from_bytes (G o) (pdec o) pub_sk = Ok sk /\
+    sh_decode a net s = Ok (blake224 a pk ++ blake224 a sk).
+Proof.
+  intros o a (L1 & L2).
+  exact (Lemmas.AddrAdaShelley.decode_encode_payment (blake224 a) (G o) (pdec o) (b32_enc a) (b32_dec a) L1 L2).
+Qed.
+Print Assumptions shelley_dec_enc.
+
+Theorem reward_dec_enc : forall o a, shelley_laws a -> forall net pub_sk s, In net ada_nets ->
+  st_encode o a net pub_sk = Ok s ->
+  exists sk, pub_from_bytes (G o) (pdec o) pub_sk = Ok sk /\
+    s = b32_enc a (net_stake_hrp net) ([14 * 16 + net_tag net] ++ blake224 a sk) /\
+    st_decode a net s = Ok (blake224 a sk).
+Proof.
+  intros o a (L1 & L2) net pub_sk s Hn H.
+  destruct (Lemmas.AddrAdaShelley.encode_staking_layout (blake224 a) (G o) (pdec o) (b32_enc a) net pub_sk s Hn H)
+    as (sk & E & S).
+  destruct (Lemmas.AddrAdaShelley.decode_encode_staking (blake224 a) (G o) (pdec o) (b32_enc a) (b32_dec a) L1 L2
+              net pub_sk s Hn H) as (sk' & E' & D).
+  rewrite E in E'. injection E' as <-.
+  exact (ex_intro _ sk (conj E (conj S D))).
+Qed.
+Print Assumptions reward_dec_enc.
+
+(* the Shelley wallet: the stake key is the account's child 2/0, the payment key its child change/index, and
+   the address of these two keys decodes back to their hashes; likewise the staking (reward) address *)
+Theorem staking_key_is_2_0 : forall o a, shelley_laws a -> forall net account change idx, In net ada_nets ->
+  (forall s, shelley_address o a net account change idx = Ok s ->
+     exists st k pk sk, derive o (kh_derivator o) account [2%Z; 0%Z] = Ok st /\
+       derive o (kh_derivator o) account [change; idx] = Ok k /\
+       pub_from_bytes (G o) (pdec o) (n_pub k) = Ok pk /\ pub_from_bytes (G o) (pdec o) (n_pub st) = Ok sk /\
+       s = b32_enc a (net_hrp net) ([0 * 16 + net_tag net] ++ blake224 a pk ++ blake224 a sk) /\
+       sh_decode a net s = Ok (blake224 a pk ++ blake224 a sk)) /\
+  (forall s, shelley_staking_address o a net account = Ok s ->
+     exists st sk, derive o (kh_derivator o) account [2%Z; 0%Z] = Ok st /\
+       pub_from_bytes (G o) (pdec o) (n_pub st) = Ok sk /\
+       s = b32_enc a (net_stake_hrp net) ([14 * 16 + net_tag net] ++ blake224 a sk) /\
+       st_decode a net s = Ok (blake224 a sk)).
+Proof.
+  intros o a (L1 & L2) net account change idx Hn. split.
+  - intros s. exact (Lemmas.AddrAdaShelley.shelley_address_layout (blake224 a) (G o) (pdec o) (b32_enc a) (b32_dec a)
+                       L1 L2 (derive o (kh_derivator o)) net account change idx s Hn).
+  - intros s. exact (Lemmas.AddrAdaShelley.shelley_staking_address_layout (blake224 a) (G o) (pdec o) (b32_enc a)
+                       (b32_dec a) L1 L2 (derive o (kh_derivator o)) net account s Hn).
+Qed.
+Print Assumptions staking_key_is_2_0.
+
+(* ------------------------------------------------------------------ Byron addresses *)
+
+(* a Byron address (Icarus: enc = None; legacy: enc = Some encrypted path) decodes -- Base58, CBOR tag 24,
+   CRC-32 of the payload verified, type public-key -- to its root hash followed by the encrypted path *)
+Theorem byron_addr_dec_enc : forall a, byron_laws a -> forall pub cc enc,
+  (match enc with Some e => bytes_ok e /\ (length e < 4000)%nat | None => True end) ->
+  byron_decode a (byron_encode_key a pub cc enc) =
+    Ok (byron_root_hash a ada_byron_type_pubkey (pub ++ cc) enc ++ match enc with Some e => e | None => [] end).
+Proof.
+  intros a (B1 & B2 & B3 & B4 & B5 & B6 & B7 & B8).
+  exact (Lemmas.AddrAdaByron.decode_encode_key (sha3 a) (blake224 a) (crc32 a) (parse_outer a) (parse_payload a)
+           (parse_bytes a) B1 B2 B6 B7 B8).
+Qed.
+Print Assumptions byron_addr_dec_enc.
+
+(* the path codec: CBOR indefinite-length array under ChaCha20-Poly1305 with the fixed nonce *)
+Theorem byron_path_codec : forall a, byron_laws a -> forall key path, path <> [] -> Forall (fun i => i < 2 ^ 32) path ->
+  byron_decrypt_path a key (byron_encrypt_path a key path) = Ok path.
+Proof.
+  intros a (B1 & B2 & B3 & B4 & B5 & _).
+  exact (Lemmas.AddrAdaByron.decrypt_encrypt_path (chacha_enc a) (chacha_dec a) B5).
+Qed.
+Print Assumptions byron_path_codec.
+
+(* ... which is empty-path intolerant: Encode([]) has two bytes, Decode demands three *)
+Theorem byron_empty_path_not_recoverable : indef_decode (indef_encode []) = Err ValueError.
+Proof. exact Lemmas.CborEnc.indef_empty_not_recoverable. Qed.
+Print Assumptions byron_empty_path_not_recoverable.
+
+(* recovering the path from a legacy wallet's own address returns the hardened indices used *)
+Theorem byron_path_recover : forall o a, byron_laws a -> forall master first second addr,
+  byron_get_address o a master first second = Ok addr ->
+  (0 <= first < 2 ^ 32)%Z /\ (0 <= second < 2 ^ 32)%Z /\
+  byron_path_from_address o a master addr = Ok [Z.to_N (Z.lor first (2 ^ 31)); Z.to_N (Z.lor second (2 ^ 31))].
+Proof.
+  intros o a (B1 & B2 & B3 & B4 & B5 & B6 & B7 & B8).
+  exact (Lemmas.AddrAdaByron.path_recover (sha3 a) (blake224 a) (pbkdf2 o) (chacha_enc a) (chacha_dec a) (crc32 a)
+           (G o) (pdec o) (parse_outer a) (parse_payload a) (parse_bytes a) B1 B2 B3 B4 B5 B6 B7 B8
+           (derive o (by_derivator o))).
+Qed.
+Print Assumptions byron_path_recover.
+
 (* ------------------------------------------------------------------ the premises are satisfiable *)
 
 Example toy_laws : hash_laws toy /\ encoding_laws toy /\ module_laws toy.
@@ -225,3 +328,20 @@ Example toy_derivation :
                       ckd_pub toy (by_derivator toy) (to_public mb) 5 = Ok b2 /\ n_pub b1 = n_pub b2).
 Proof. exact toy_derivation_proof. Qed.
 Print Assumptions toy_derivation.
+
+Example atoy_laws : shelley_laws atoy /\ byron_laws atoy.
+Proof. exact atoy_laws_proof. Qed.
+Print Assumptions atoy_laws.
+
+(* an Icarus wallet's account with its Shelley and staking addresses, and a Byron-legacy wallet recovering the
+   path of one of its addresses (CBOR parsed by the decoder of Lemmas/CborEnc.v) *)
+Example toy_addresses :
+  In toy_net ada_nets /\
+  exists m acct, ic_from_seed toy toy_seed = Ok m /\ cip1852_account toy m 0 = Ok acct /\
+    (exists s, shelley_address toy atoy toy_net acct 0 5 = Ok s) /\
+    (exists s, shelley_staking_address toy atoy toy_net acct = Ok s) /\
+    exists mb addr, by_from_seed toy 10 toy_seed = Ok mb /\
+      byron_get_address toy atoy mb 3 (2 ^ 31 + 4) = Ok addr /\
+      byron_path_from_address toy atoy mb addr = Ok [2 ^ 31 + 3; 2 ^ 31 + 4].
+Proof. exact toy_addresses_proof. Qed.
+Print Assumptions toy_addresses.
